@@ -76,8 +76,9 @@ TABLE = {
                               "duplicate_declaration_rejected", "push_ns_appends", "push_ns_limit", "ns_values_limit_is"])]),
  "C10": dict(
    intro="C10 -- every read operation on a parsed document is total: for every successfully parsed document\n   (valid UTF-8 input, limit fitting the u32 field), every node id below the node count and every argument,\n   each accessor, axis, element variant, iterator constructor, name lookup, text / tail, root_element,\n   get_node (any id) and text_pos_at (any offset) of the model's API returns Ok -- it reaches none of the\n   panic sites of the source (unwrap, expect, indexing, slicing) and its loops do not run out of fuel.",
-   imports=["From RX.Spec Require Import Tree.", "From RX.Proofs Require Import ApiTotal PositionProofs."],
-   groups=[("ApiTotal.v", ["api_total", "api_total_doc"]), ("PositionProofs.v", ["text_pos_total_valid"])]),
+   imports=["From RX.Spec Require Import Tree.", "From RX.Model Require Import Debug.", "From RX.Proofs Require Import ApiTotal PositionProofs DebugTotal."],
+   groups=[("ApiTotal.v", ["api_total", "api_total_doc"]), ("PositionProofs.v", ["text_pos_total_valid"]),
+           ("DebugTotal.v", ["debug_total", "debug_stack_bounded"])]),
  "C11": dict(
    intro="C11 -- navigation and iterators agree with the tree: every parsed document is an arena (Arena' d t:\n   the pre-order encoding of a well-formed document tree, NavParse.v), and on every arena each link accessor, axis, element variant, text/tail, root_element\n   and iterator of the model's API is the corresponding function of t, and the double-ended iterators\n   implement the deque specification for every sequence of operations.",
    imports=["From RX.Spec Require Import Tree Deque.", "From RX.Proofs Require Import NavEnc NavLinks NavIter NavAxes NavElem NavParse."],
@@ -102,11 +103,12 @@ TABLE = {
                               "parse_close_element_post"], "Local Notation token := Tokenizer.token.", "forall (text : bytes),")]),
  "C14": dict(
    intro="C14 -- text positions and error reports: text_pos_at is total on valid UTF-8, clamps, counts\n   rows by LF and columns in characters, stays in bounds and moves with inserted line breaks / spaces;\n   every Err returned by parse carries the position of an offset inside the input (or is one of the\n   seven position-less variants, which report 1:1), hence row / column are within the input.",
-   imports=["From RX.Proofs Require Import PositionProofs ErrPosStream ErrPosTokenizer ErrPosParse."],
+   imports=["From RX.Proofs Require Import PositionProofs ErrPosStream ErrPosTokenizer ErrPosParse ErrPayload."],
    groups=[("PositionProofs.v", ["text_pos_total_valid", "text_pos_clamped", "text_pos_on_boundary", "text_pos_bounds", "text_pos_shift_lines_valid",
                                  "text_pos_shift_spaces_valid", "text_pos_shift_lines_gen", "text_pos_shift_spaces_gen"]),
            ("ErrPosTokenizer.v", ["tokenizer_errors_positioned"], "Local Notation token := Tokenizer.token."),
-           ("ErrPosParse.v", ["token_errors_positioned", "parse_errors_positioned", "parse_error_in_bounds"])]),
+           ("ErrPosParse.v", ["token_errors_positioned", "parse_errors_positioned", "parse_error_in_bounds"]),
+           ("ErrPayload.v", ["parse_error_payload_from_source"])]),
  "C15": dict(
    intro="C15 -- nodes_limit is a hard, monotone cap on tree size: a successful parse has at most L nodes;\n   if the parse with a larger limit succeeds with N nodes then every L >= N gives the identical document\n   and every L < N gives Err NodesLimitReached; if it fails, every smaller limit fails too.",
    imports=["From RX.Proofs Require Import OptionsParam OptionsBuild OptionsMain OptionsDtd."],
